@@ -314,8 +314,14 @@ func (e event) tok() string {
 		return "K " + fc
 	case 'G':
 		p := []string{"G", strconv.Itoa(len(e.resps))}
+		if e.failAt >= 0 {
+			p[0] = "GF" // a pass of the candidate loop during which the write with this ordinal fails
+		}
 		for _, r := range e.resps {
 			p = append(p, fmt.Sprintf("%d %d %d %d %d %d %d", r.id, r.pvErr, r.pvTerm, b2i(r.pvGranted), b2i(r.vErr), r.vTerm, b2i(r.vGranted)))
+		}
+		if e.failAt >= 0 {
+			p = append(p, strconv.Itoa(e.failAt))
 		}
 		return strings.Join(p, " ")
 	}
@@ -381,7 +387,7 @@ func (w *world) apply(e event) string {
 		return w.obs(false, "n")
 	}
 	if e.kind == 'G' { // one pass of the candidate loop against scripted peers
-		w.c.reset(-1, -1)
+		w.c.reset(e.failAt, -1)
 		w.trans.mu.Lock()
 		w.trans.script = map[int]peerResp{}
 		for _, r := range e.resps {
@@ -911,6 +917,9 @@ func runHandlersCase(rng *rand.Rand, thorough bool, out *bufio.Writer, st *stats
 					if rng.Intn(8) != 0 { // sometimes a peer does not answer at all (no script: transport error)
 						e.resps = append(e.resps, r)
 					}
+				}
+				if rng.Intn(5) == 0 { // a StableStore write of this pass fails (0 the term, 1 / 2 the own vote)
+					e.failAt = rng.Intn(3)
 				}
 			}
 		}
